@@ -287,6 +287,21 @@ Proof.
 Qed.
 Print Assumptions C06_nothing_pending_refuted_lost_future.
 
+(* FALSE across lives: join() starts the request ids at 1 again but keeps the request tables; with a user onDisconnect
+   that does not call the default sweep, the record of a request of the previous life is overwritten by the request
+   of the new session that gets the same id: its future is never completed, not even by the sweeps of the second life *)
+Theorem C06_nothing_pending_refuted_stale_record_overwritten :
+  exists cfg ops, transport (final Tx cfg ops) = false /\ pend (final Tx cfg ops) = []
+                  /\ In (ApiReturned (Some 0)) (trace Tx cfg ops) /\ is_done (final Tx cfg ops) 0 = false.
+Proof.
+  exists {| u_connect := CnJoin; u_welcome := WlNone; u_challenge := ChRaise; u_join_raises := false;
+            u_leave_super := true; u_leave_raises := false; u_disc_super := false; u_disc_raises := false;
+            t_lenient := false |},
+         [OOpen; ACall 1 [] [] None; OLost true; OOpen; RWelcome 2; ACall 3 [] [] None; OLost false].
+  vm_compute. repeat split; auto 12.
+Qed.
+Print Assumptions C06_nothing_pending_refuted_stale_record_overwritten.
+
 (* ---- API calls after the end ---- *)
 Theorem C06_api_after_end : forall fl cfg s o,
   transport s = false -> is_request_api o = true -> step fl cfg s o = (s, [ApiRaised XTransportLost]).
